@@ -10,6 +10,7 @@ func LTSSubjects(variant string) map[string]lts.Subject {
 		"heap":  Heap{Cmp: variant == "cmp"},
 		"pq3":   PQ{Cmp: variant == "cmp", K: 3},
 		"pq4":   PQ{Cmp: variant == "cmp", K: 4},
+		"pq5":   PQ{Cmp: variant == "cmp", K: 5},
 		"tree4": Tree{Variant: variant, N: 4},
 		"typedmap": TypedMap{Variant: variant},
 	}
